@@ -214,6 +214,14 @@ func addIntrinsics(P *Program) {
 		i.crashOn = asInt64(args[0]) > 0
 		return nil
 	})
+	reg("ModelOpensKeepLockGuard", func(i *interpreter, fr *frame, fn *ssa.Function, args []value) value {
+		for _, b := range i.blog().bypass {
+			if b {
+				return false
+			}
+		}
+		return true
+	})
 	reg("ModelAllOpensSynced", func(i *interpreter, fr *frame, fn *ssa.Function, args []value) value {
 		l := i.blog()
 		if len(l.opens) == 0 {
